@@ -4,6 +4,7 @@ mod compx;
 mod corruptx;
 mod crashx;
 mod faultx;
+mod props_c17;
 mod props_comp;
 mod props_crash;
 mod props_sched;
@@ -155,8 +156,11 @@ fn dispatch(id: &str, tier: &str) {
         "C09" => props_seq::c09(tier),
         "C10" => props_seq::c10(tier),
         "C12" => props_comp::c12(tier),
+        "C13" => props_comp::c13(tier),
+        "C14" => props_comp::c14(tier),
         "C15" => props_crash::c15(tier),
         "C16" => props_crash::c16(tier),
+        "C17" => props_c17::c17(tier),
         "C11" => props_seq::c11(tier),
         _ => usage(),
     }
